@@ -108,6 +108,10 @@ class C03(RegConcCheck):
     extra_modules = ("SigHook.Props.C08", "SigHook.Props.C08b")
 
     def replay(self, payload):
+        if payload.get("nullinfo"):
+            from . import c15
+            fi, _ = c15.run_blocks([payload["ops"]])
+            return not any(l == "exit killedBy:6" for l in fi[0]), "\n".join(fi[0])
         if payload.get("flags"):
             from . import c15
             fi, _ = c15.run_blocks([payload["ops"]])
@@ -232,6 +236,18 @@ class C03(RegConcCheck):
                 res["failures"].append({"kind": "violation", "key": "C03:shutdown-hooks",
                                         "what": "ops `%s`: the conditional-shutdown action ran the process's exit-time hooks from inside the signal handler (exit() instead of _exit(): not async-signal-safe, may lock, allocate or wait)" % "; ".join(b),
                                         "payload": {"ops": b, "impl": impl, "flags": True}})
+        # the dispatcher's one exit of its own: a NULL `info` ends the process with write(2) + abort, also while another
+        # thread holds the lock of std's stderr (anything of std's I/O in there would wait for it: exit status 78)
+        nblocks = [["flag b0", "nullinfo"], ["usize u0 3", "flag b1", "nullinfo"]]
+        ni, _nm = c15.run_blocks(nblocks)
+        for b, impl in zip(nblocks, ni):
+            ex = next((l for l in impl if l.startswith("exit ")), "exit ?")
+            if ex != "exit killedBy:6":
+                res["failures"].append({"kind": "violation", "key": "C03:nullinfo",
+                                        "what": "ops `%s`: a delivery with a NULL siginfo while another thread holds std's stderr lock must end the process with abort() at once; observed `%s` (78 = the dispatcher waited for the lock until the other thread gave up; hang = it never came back)" % ("; ".join(b), ex),
+                                        "payload": {"ops": b, "impl": impl, "flags": True, "nullinfo": True}})
+        res["evaluations"] += len(nblocks)
+        res["distribution"]["null_siginfo_probes"] = len(nblocks)
         res["evaluations"] += len(fblocks)
         res["distribution"]["shutdown_probes"] = len(fblocks)
         res["rule"] += "; plus forked probes of the conditional-shutdown action with an atexit marker (the delivery must end the process without running exit-time hooks)"
